@@ -11,7 +11,7 @@ Model of the consolidation decision logic (C06), as the code is:
 * `pkg/controllers/disruption/multinodeconsolidation.go`
                                         — `filterOutSameInstanceType` and the validity test of `firstNConsolidationOption`
 * `pkg/controllers/disruption/validation.go`, `helpers.go`
-                                        — `validateCommand`, `instanceTypesAreSubset`
+                                        — `validateCommand`, `instanceTypesAreSubset`, `requirementsAreSubset`
 * `pkg/controllers/disruption/types.go`, `pkg/utils/disruption` — `resolveNodePrice`, `Candidate.IsEmpty`,
                                           `computeRescheduleDisruptionCost`, `EvictionCost`
 
@@ -282,15 +282,24 @@ def multiStep (ridKey : String) (gate : Bool) (cands : List Cand) (sim : Sim) : 
     `len(rhs ∩ lhs) == len(lhs)`, which for sets says `lhs ⊆ rhs`; the model states the set meaning. -/
 def namesSubset (lhs rhs : List String) : Bool := lhs.all rhs.contains
 
-/-- `validateCommand`: `cmdRepl` = the names of the command's replacement options (`none` = a delete),
-    `re` = the re-simulation -/
-def validateCommand (cmdRepl : Option (List String)) (re : Sim) : Bool :=
+/-- `requirementsAreSubset(lhs, rhs)` (validation.go), as the code is: for every key `rhs` constrains,
+    `l := lhs.Get(key)` (an undefined key reads as `Exists`) and `l.Intersection(r).Len() == l.Len()`.
+    The test compares the SIZES `Requirement.Len` reports (`MaxInt64 - |excluded|` for a complement set), so it is
+    exact for plain value sets only: numeric bounds do not show in `Len`, and neither does "the label may be
+    absent" (`Get` turns an undefined key into `Exists`, the empty set is a subset of everything) — see
+    `C06_len_test_inexact_for_bounds` / `C06_len_test_ignores_absence` in `Props/C06.lean`. -/
+def reqsSubset (lhs rhs : Reqs) : Bool :=
+  rhs.all (fun (k, r) => let l := lhs.get k; (l.inter r).len == l.len)
+
+/-- `validateCommand`: `cmdRepl` = the requirements and the option names of the command's replacement
+    (`none` = a delete), `re` = the re-simulation -/
+def validateCommand (cmdRepl : Option (Reqs × List String)) (re : Sim) : Bool :=
   re.allScheduled &&
   match re.claims, cmdRepl with
   | [], none => true
   | [], some _ => false
   | [_], none => false
-  | [c], some names => namesSubset names (c.its.map (·.name))
+  | [c], some (R, names) => namesSubset names (c.its.map (·.name)) && reqsSubset R c.reqs
   | _, _ => false
 
 /-! ### Emptiness -/
